@@ -9,6 +9,7 @@ void runFaults(const Opts&, long, CaseLog&);
 void runDamage(const Opts&, long, CaseLog&);
 void runLimits(const Opts&, long, CaseLog&);
 void runThreadsRound(const Opts&, long, CaseLog&);
+void runSaveSeq(const Opts&, long, CaseLog&);
 void runPlainSave(const Opts&, long, CaseLog&);
 int modeMain(const Opts& o) {
     if (o.mode == "hist") return runCases(o, runHistCase);
@@ -20,6 +21,7 @@ int modeMain(const Opts& o) {
     if (o.mode == "damage") return runCases(o, runDamage);
     if (o.mode == "limits") return runCases(o, runLimits);
     if (o.mode == "threads") return runCases(o, runThreadsRound);
+    if (o.mode == "saveseq") return runCases(o, runSaveSeq);
     if (o.mode == "plainsave") return runCases(o, runPlainSave);
     fprintf(stderr, "unknown mode %s\n", o.mode.c_str());
     return 2;
